@@ -13,6 +13,7 @@ THEOREMS = [
     "IgVerif.C20.c20_cache_inv_reachable", "IgVerif.C20.c20_bsearch_terminates", "IgVerif.C20.c20_bsearch_found",
     "IgVerif.C20.c20_bsearch_absent", "IgVerif.C20.c20_unique_name_unknown_lib", "IgVerif.C20.c20_unique_name_absent",
     "IgVerif.C20.c20_unique_name_found",
+    "IgVerif.C20.c20_module_ranges", "IgVerif.C20.c20_fptr_exact", "IgVerif.C20.c20_fptr_outside", "IgVerif.C20.c20_module_search",
 ]
 LKS = {"type_name": ("type", "_name"), "type_scoped_name": ("type", "_scoped_name"), "type_true_name": ("type", "_true_name"),
        "manifest_name": ("manifest", "_name"), "element_name": ("element", "_name"), "element_scoped_name": ("element", "_scoped_name")}
